@@ -23,7 +23,7 @@ try:
             m = line; break
     assert m, 'no go test line in DEMO.txt'
     run = re.search(r"-run\s+('[^']+'|\"[^\"]+\"|\S+)", m).group(1).strip('\'"')
-    pkg = m.split()[-1]
+    pkg = [t for t in m.split() if t == '.' or t.startswith('./')][-1]
     assert pkg.startswith('.'), pkg
     extra = ' -race' if re.search(r'go test[^\n]*-race', m) else ''
     tests = glob.glob(os.path.join(seed, '*_test.go'))
